@@ -645,9 +645,37 @@ def partition(members):
     return main, parts
 
 
+def validate_bounds(nodes):
+    """ Every array is bound to a member of its own struct (parsers other than prophy and patches can break that). """
+    for node in nodes:
+        if isinstance(node, Struct):
+            names = set(member.name for member in node.members)
+            for member in node.members:
+                if member.bound and member.bound not in names:
+                    raise ModelError("array '%s' of %s is bound to '%s', which is not a member" %
+                                     (member.name, node.name, member.bound))
+
+
+def validate_sizer_types(nodes):
+    """ A sizer is an integer: a builtin one, possibly behind typedefs. Requires cross referenced nodes. """
+    for node in nodes:
+        if isinstance(node, Struct):
+            members = dict((member.name, member) for member in node.members)
+            for member in node.members:
+                if member.bound:
+                    sizer = members[member.bound]
+                    while isinstance(sizer.definition, Typedef):
+                        sizer = sizer.definition
+                    if sizer.definition is not None or sizer.type_name not in BUILTIN_SIZES or sizer.type_name[:1] not in 'ui':
+                        raise ModelError("array '%s' of %s is bound to '%s', which is not an integer" %
+                                         (member.name, node.name, member.bound))
+
+
 def evaluate_model(nodes, warn_emitter=lambda x: None):
+    validate_bounds(nodes)
     topological_sort(nodes)
     constants = cross_reference(nodes, warn_emitter)
+    validate_sizer_types(nodes)
     evaluate_stiffness_kinds(nodes)
     evaluate_sizes(nodes, warn_emitter)
     return nodes, constants
